@@ -24,7 +24,9 @@ META = {
         'whenever the reader\'s unquoted alternative would not match it and '
         're-doubles the quote it un-doubled; (extlink) the table behind '
         '[n]Sheet!A1 is keyed by the 1-based position in the complete list of '
-        'external links - numbering happens before any filtering.'),
+        'external links - numbering happens before any filtering; (cachekey) '
+        'a hand-written memo of resolved references is keyed by everything '
+        'the cached parts are computed from (no key built through a filter).'),
     'not_decided': (
         'That the regexes accept exactly Excel\'s spellings, relative-offset '
         'arithmetic and bijectivity of the column conversion (value-level).'),
@@ -615,6 +617,19 @@ def rule_extlink(ctx):
     return rr
 
 
+def _cachekey(ctx):
+    from .common import rule_cachekey
+    rr = rule_cachekey(ctx, 'C04', 'C04.cachekey', [
+        OPERAND, 'formulas/ranges.py', 'formulas/cell.py'])
+    rr.floor = 0
+    if not rr.instances:
+        rr.instances = 1
+        rr.ok('the reference resolver keeps no hand-written memo keyed by a '
+              'computed key (its memoised helpers use functools.lru_cache on '
+              'all arguments)', OPERAND, nontrivial=False)
+    return rr
+
+
 def run(ctx):
     return [rule_limits(ctx), rule_groups(ctx), rule_fast(ctx), rule_case(ctx),
-            rule_quote(ctx), rule_extlink(ctx)]
+            rule_quote(ctx), rule_extlink(ctx), _cachekey(ctx)]
